@@ -520,6 +520,7 @@ def check_noplan(case):
 # ------------------------------------------------------------------------------------------------ ENHSP
 
 CASEFN = {"as-written": lambda s: s, "upper": str.upper, "lower": str.lower}
+ENHSP_LAYOUTS = [("flush", "", ""), ("indented", "  ", ""), ("trailing-blanks", "", "  "), ("both", " ", " \t")]
 
 
 def check_enhsp(case):
@@ -530,17 +531,20 @@ def check_enhsp(case):
     exp = expected(steps)
     r.nontrivial = n >= 2
     seen = set()
-    for cname, fn in CASEFN.items():
-        for final_nl in (True, False):
-            text = "\n".join("(" + " ".join(fn(t) for t in s) + ")" for s in steps)
+    for cname, fn, final_nl, (lname, lead, trail) in [(c, f, nl, lay) for c, f in CASEFN.items() for nl in (True, False)
+                                                      for lay in ENHSP_LAYOUTS]:
+        if lname != "flush" and cname == "lower":
+            continue
+        if True:
+            text = "\n".join(lead + "(" + " ".join(fn(t) for t in s) + ")" + trail for s in steps)
             if final_nl and n:
                 text += "\n"
             if text in seen:
                 continue
             seen.add(text)
             r.count("states")
-            where = f"case={cname} final_newline={final_nl} file={brief(text)}"
-            tags0 = ["enhsp", cname, "final-newline" if final_nl else "no-final-newline"]
+            where = f"case={cname} layout={lname} final_newline={final_nl} file={brief(text)}"
+            tags0 = ["enhsp", cname, lname, "final-newline" if final_nl else "no-final-newline"]
 
             p = write_tmp(text, ".enhsp")
             got = guard(ENHSPParser.parse_plan_content, p)
